@@ -15,8 +15,8 @@ ASSUMPTIONS = [
     "the two loaded objects are compared (centres of modules with rectangles are recomputed on load, so document-vs-object comparison would be wrong); numbers with relative 1e-12, centres 1e-9",
     "each load happens with the class-wide tolerance undefined, as in a fresh process",
 ]
-CASES = {"quick": 5000, "thorough": 400000}
-MIN_CASES = {"quick": 1200, "thorough": 20000}
+CASES = {"quick": 10000, "thorough": 400000}
+MIN_CASES = {"quick": 2500, "thorough": 20000}
 REQUIRED_COUNTERS = ["roundtrips_compared", "second_write_compared", "modules_compared", "kind:soft", "kind:hard", "kind:flip", "kind:fixed", "kind:terminal",
                      "multi_region_area_modules", "weighted_nets", "file_writes_compared"]
 
